@@ -783,8 +783,20 @@ func ancestorRule(c *Ctx, r *Report) {
 // configuration (the read accessors of fields test their receiver) and gets its fields when it is first written to
 // (mergeConfig for a destination, setField for a setter).
 func zeroConfigRule(c *Ctx, r *Report) {
-	r.Rule("R07s", "fields.get / dict / array dereference their receiver only under a nil test; mergeConfig and setField give a destination without fields a fresh fields object", 5)
-	for _, mn := range []string{"get", "dict", "array"} {
+	r.Rule("R07s", "every method of *fields that does not grow the node (all but set / setAt / add / append, whose callers give the destination its fields first) dereferences its receiver only under a nil test; mergeConfig and setField give a destination without fields a fresh fields object", 7)
+	// the methods are enumerated from the type, so that a new accessor is checked without being listed; the writers
+	// that grow a node are exempt by name, with the reason above (the second half of the rule is their side)
+	growers := map[string]bool{"set": true, "setAt": true, "add": true, "append": true}
+	var readers []string
+	if ms := c.Prog.MethodSets.MethodSet(types.NewPointer(c.Named("", "fields"))); ms != nil {
+		for i := 0; i < ms.Len(); i++ {
+			if mn := ms.At(i).Obj().Name(); !growers[mn] {
+				readers = append(readers, mn)
+			}
+		}
+	}
+	sort.Strings(readers)
+	for _, mn := range readers {
 		fn := c.Method("", "fields", mn)
 		recv := fn.Params[0]
 		ok := true
